@@ -10,7 +10,11 @@ FAMS = [
     ("wide", "pack:2 core:4 pu:1"),
     ("nested", "[numa] pack:2 [numa] core:2 pu:2"),
     ("numa2", "node:2 core:2 pu:2"),
+    ("numa3p", "node:3(indexes=2,0,1) core:2 pu:1"),      # Group level below the root, NUMA os_index != logical_index
 ]
+ALL_OPS = ["restrict", "insert_misc", "group", "group_ns", "group_obj", "group_free", "allow", "add_info", "set_subtype", "refresh",
+           "dist_add", "dist_remove", "memattr", "cpukind", "cpukind_info"]
+STRUCT_OPS = ["restrict", "insert_misc", "group", "group_ns", "group_obj"]           # focused configuration: what reshapes the tree, one call deeper
 # load-time configurations: (name, lines)
 LOADCFG = [
     ("misc+disallowed", ["filter 0 19 0", "flags 0 1"]),
@@ -38,14 +42,18 @@ def prepass(ctx, exe):
         pus = sorted(o["os"] for o in t["objs"] if o["type"] == 4)
         nodes = {}
         gps = {}
+        d1, tops = [], []
         for o in t["objs"]:
             gps.setdefault(o["type"], []).append(o["gp"])
+            cs = set()
+            for lo, hi in o["cs"]:
+                cs.update(range(lo, hi + 1))
             if o["type"] == 14:
-                cs = set()
-                for lo, hi in o["cs"]:
-                    cs.update(range(lo, hi + 1))
                 nodes[o["os"]] = sorted(cs)
-        info[name] = {"pus": pus, "nodes": nodes, "gps": gps}
+            if o["depth"] == 1:
+                d1.append(o["gp"])
+                tops.append(sorted(cs))
+        info[name] = {"pus": pus, "nodes": nodes, "gps": gps, "depth1": d1, "tops": tops}
     return info
 
 
@@ -66,15 +74,18 @@ def mc_module(info, choices, rflags):
     nodes = info["nodes"]
     nc = "[n \\in {%s} |-> CASE %s]" % (", ".join(map(str, sorted(nodes))),
                                          " [] ".join("n = %d -> {%s}" % (n, ", ".join(map(str, cs))) for n, cs in sorted(nodes.items())))
-    return ("---- MODULE MC_TopoOps_gen ----\nEXTENDS MC_TopoOps\nGPUs == {%s}\nGNodes == {%s}\nGNodeCpus == %s\nGSets == <<%s>>\nGRFlags == {%s}\n====\n"
+    return ("---- MODULE MC_TopoOps_gen ----\nEXTENDS MC_TopoOps\nGPUs == {%s}\nGNodes == {%s}\nGNodeCpus == %s\nGSets == <<%s>>\nGRFlags == {%s}\nGTops == <<%s>>\n"
+            "GOpsAll == {%s}\nGOpsStruct == {%s}\n====\n"
             % (", ".join(map(str, info["pus"])), ", ".join(map(str, sorted(nodes))), nc,
-               ", ".join(c08.tla_ranges(c) for c in choices), ", ".join(map(str, rflags))))
+               ", ".join(c08.tla_ranges(c) for c in choices), ", ".join(map(str, rflags)),
+               ", ".join("{%s}" % ", ".join(map(str, t)) for t in info["tops"]),
+               ", ".join('"%s"' % o for o in ALL_OPS), ", ".join('"%s"' % o for o in STRUCT_OPS)))
 
 
-def mc_cfg(maxsteps, two, nstripes, stripe, simlen, bfs):
-    s = ("SPECIFICATION Spec\nCONSTANTS\n  PUs <- GPUs\n  Nodes <- GNodes\n  NodeCpus <- GNodeCpus\n  SetChoices <- GSets\n  RestrictFlags <- GRFlags\n"
-         "  Objs = 5\n  MaxSteps = %d\n  TwoSlots = %s\n  NStripes = %d\n  Stripe = %d\n  SimLen = %d\nVIEW StateView\nCHECK_DEADLOCK FALSE\n"
-         % (maxsteps, "TRUE" if two else "FALSE", nstripes, stripe, simlen))
+def mc_cfg(maxsteps, two, nstripes, stripe, simlen, bfs, ops="GOpsAll", lean=False):
+    s = ("SPECIFICATION Spec\nCONSTANTS\n  PUs <- GPUs\n  Nodes <- GNodes\n  NodeCpus <- GNodeCpus\n  SetChoices <- GSets\n  RestrictFlags <- GRFlags\n  Tops <- GTops\n  Ops <- %s\n  Lean = %s\n"
+         "  Objs = 6\n  MaxSteps = %d\n  TwoSlots = %s\n  NStripes = %d\n  Stripe = %d\n  SimLen = %d\nVIEW StateView\nCHECK_DEADLOCK FALSE\n"
+         % (ops, "TRUE" if lean else "FALSE", maxsteps, "TRUE" if two else "FALSE", nstripes, stripe, simlen))
     if bfs:
         s += "INVARIANTS NeverEmpty CopyWithinOriginal\nACTION_CONSTRAINT EmitEdge\n"
     else:
@@ -84,7 +95,10 @@ def mc_cfg(maxsteps, two, nstripes, stripe, simlen, bfs):
 
 def anchors(info):
     g = info["gps"]
-    return [g[0][0], g[1][1], g[3][2], g[4][1], g[14][0]]     # root, second package, third core, second PU, first NUMA node
+    d1 = info["depth1"]
+    pick = lambda l, i: l[i] if len(l) > i else l[-1]
+    # root, second child of the root, third core, second PU, first NUMA node, first child of the root
+    return [g[0][0], pick(d1, 1), pick(g[3], 2), pick(g[4], 1), g[14][0], d1[0]]
 
 
 def dist_objs(info, shape):
@@ -136,7 +150,9 @@ def render(hist, info, choices):
         elif op == "memattr":
             lines.append("memattr %d %d %d %d" % (s, x, a[y - 1], 100 + i))
         elif op == "cpukind":
-            lines.append("cpukind %d %s %d" % (s, c08.ranges_text(choices[x - 1]), y))
+            lines.append("cpukind %d %s %d %d" % (s, c08.ranges_text(choices[x - 1]), y, z))
+        elif op == "cpukind_info":
+            lines.append("cpukind_info %d %d %d" % (s, x, y))
         elif op == "dup":
             lines.append("dup 0 1")
         elif op == "destroy":
@@ -144,29 +160,51 @@ def render(hist, info, choices):
     return lines
 
 
-def stratified(edges, keep, rng):
-    """seeded sample of the edges that takes one edge of every call signature (which calls, on which slot, in which order), shortest
-    signatures first, then a second one, ... until keep edges are taken"""
-    if len(edges) <= keep:
-        return list(edges)
+def stratified(edges, keep, rng, prio=None):
+    """seeded sample of the edges ({"h": history, "g": signature}) that takes one edge of every call signature (which calls, on which slot,
+    in which order, of which class), then a second one, ... until keep edges are taken; signatures are visited shortest first and, among
+    equally long ones, in the order given by prio(signature) (smaller first), then at random.  Returns the histories."""
     groups = {}
     for e in edges:
-        groups.setdefault(tuple((o[0], o[1]) for o in e), []).append(e)
-    order = sorted(groups, key=lambda k: (len(k), rng.random()))
+        groups.setdefault(tuple(tuple(x) for x in e["g"]), []).append(e["h"])
+    if len(edges) <= keep:
+        return [e["h"] for e in edges], len(groups), len(groups)
+    order = sorted(groups, key=lambda k: (len(k), prio(k) if prio else 0, rng.random()))
     for k in order:
         rng.shuffle(groups[k])
-    res = []
+    res, seen = [], set()
     while len(res) < keep:
         progressed = False
         for k in order:
             if groups[k]:
                 res.append(groups[k].pop())
+                seen.add(k)
                 progressed = True
                 if len(res) >= keep:
                     break
         if not progressed:
             break
-    return res
+    return res, len(seen), len(groups)
+
+
+def prio_two(sig):
+    """two topologies: what the copy is made from matters most, then what happens to either copy right after"""
+    names = [x[0] for x in sig]
+    if names and names[-1] == "dup":
+        return 0
+    if "dup" in names:
+        return 1
+    return 2
+
+
+def prio_struct(sig):
+    """one topology: a restrict that may merge levels (one subtree left) after the tree was reshaped comes first"""
+    last = sig[-1]
+    if last[0] == "restrict" and last[2] in (1, 11) and any(x[0] != "restrict" for x in sig[:-1]):
+        return 0
+    if last[0] == "restrict" and last[2] != -1:
+        return 1
+    return 2
 
 
 def run_generic(ctx, two_slots, replay=None):
@@ -188,21 +226,25 @@ def run_generic(ctx, two_slots, replay=None):
     info = prepass(ctx, exe)
     rflags = [0, 1, 2, 6, 8, 24, 26, 3, 9, 16, 32] if thorough else [0, 1, 6, 8, 24, 9]
     behs = []
-    fams = FAMS if thorough else [FAMS[0], FAMS[2]]
+    fams = FAMS if thorough else [FAMS[2], FAMS[4]]
     for name, desc in fams:
         choices = set_choices(info[name])
         gen = [("MC_TopoOps_gen.tla", mc_module(info[name], choices, rflags))]
         hists = []
-        # BFS: every edge up to 2 (3 with dup) steps, striped
-        maxsteps = 3 if two_slots else 2
-        out, st = ctx.tlc_mc("MC_TopoOps_gen", mc_cfg(maxsteps, two_slots, 1, 0, 0, True), tag="ops_bfs_" + name,
-                             workers=8, extra_modules=gen, timeout=2400)
-        if st["error"] or st["rc"] != 0:
-            raise vlib.Infra("MC_TopoOps failed for %s (model-level): %s\n%s" % (name, st["error"], out[-2000:]))
-        edges = list(vlib.tlc_printed(out, "EDGE"))
-        ctx.extra["edges_" + name] = len(edges)
-        keep = 15000 if thorough else 500
-        hists += stratified(edges, keep, rng)       # seeded sample of the state-graph edges, spread over the call signatures
+        # BFS: every edge up to 2 (3 with dup) steps; a focused configuration (calls that reshape the tree) goes one call deeper
+        confs = [("ops_bfs", 3 if two_slots else 2, "GOpsAll", 15000 if thorough else (1000 if two_slots else 600), prio_two if two_slots else None)]
+        if not two_slots:
+            confs.append(("struct_bfs", 3, "GOpsStruct", 15000 if thorough else 500, prio_struct))
+        ns = 1 if thorough else (6 if two_slots else 2)          # quick: TLC prints the edges of one seed-selected stripe (a hash of the arguments)
+        for tag, maxsteps, ops, keep, prio in confs:
+            out, st = ctx.tlc_mc("MC_TopoOps_gen", mc_cfg(maxsteps, two_slots, ns, ctx.seed % ns, 0, True, ops, lean=two_slots and not thorough), tag=tag + "_" + name,
+                                 workers=8, extra_modules=gen, timeout=2400)
+            if st["error"] or st["rc"] != 0:
+                raise vlib.Infra("MC_TopoOps failed for %s (model-level): %s\n%s" % (name, st["error"], out[-2000:]))
+            edges = list(vlib.tlc_printed(out, "EDGE"))
+            picked, nsig, allsig = stratified(edges, keep, rng, prio)       # seeded sample of the state-graph edges, spread over the call signatures
+            ctx.extra["%s_%s" % (tag, name)] = {"edges": len(edges), "signatures": allsig, "signatures_replayed": nsig, "edges_replayed": len(picked)}
+            hists += picked
         # simulation: long histories
         simlen = 10 if thorough else 8
         out, st = ctx.tlc_mc("MC_TopoOps_gen", mc_cfg(simlen, two_slots, 1, 0, simlen, False), tag="ops_sim_" + name,
@@ -226,7 +268,9 @@ def run_generic(ctx, two_slots, replay=None):
     ctx.handle_rejections(rejs, behs, replay_fn)
     return ctx.finish(
         rule="histories of public modifying calls (restrict, insert_misc, Group alloc/insert/free with explicit, nodeset-only and object-copied sets, allow, add_info, set_subtype, refresh, "
-             "distances add with and without grouping / remove, memattr register+set, cpukinds register%s) with valid and invalid arguments are enumerated (every edge to depth %d, striped) "
+             "distances add with and without grouping / remove, memattr register+set, cpukinds register with and without infos, in-place edits of CPU kind infos%s) with valid and invalid arguments are enumerated "
+             "(every edge to depth %d with the whole alphabet; the view keeps the call signature so that every ordered combination of calls is an edge; a focused configuration with the tree-reshaping calls goes to depth 3; "
+             "edges are sampled round-robin over the signatures, those that end in a level-merging restrict or a dup first) "
              "and simulated (depth 8-10) by TLC from MC_TopoOps.tla over synthetic families x load configurations; each is replayed on the rebuilt library and after EVERY call the "
              "per-call relation (TopoOps.tla), WellFormed, gp/userdata stability and the frame condition on the other slot are evaluated. Non-trivial = at least one modifying call."
              % (", dup, destroy in either order" if two_slots else "", 3 if two_slots else 2),
